@@ -52,6 +52,21 @@ def h_interp(ctx):
     t0 = ctx.dt("t0") if gaps_c is None else (hlib.T0 if ctx.concrete else symx.SymDT.const(hlib.T0))
     ada, step = _adapter(ctx, kind)
     out, inp = hlib.linked_pair(fm.Info(time=t0, grid=fm.NoGrid(1), units="m"), adapters=[ada])
+    spill_dir = None
+    if ctx.params.get("spill"):
+        import tempfile
+        spill_dir = tempfile.mkdtemp(prefix="vf_c11_")
+        ada.memory_limit, ada.memory_location = 0, spill_dir  # every buffered entry lives in a file
+    try:
+        _interp_body(ctx, kind, pattern, gaps_c, width, t0, ada, step, out, inp)
+    finally:
+        if spill_dir is not None:
+            import shutil
+            shutil.rmtree(spill_dir, ignore_errors=True)
+
+
+def _interp_body(ctx, kind, pattern, gaps_c, width, t0, ada, step, out, inp):
+    spill = bool(ctx.params.get("spill"))
     times, vals = [], []
     prev_r = None
     ri = 0
@@ -64,8 +79,13 @@ def h_interp(ctx):
                 t = times[-1] + timedelta(microseconds=gaps_c[i - 1])
             else:
                 t = times[-1] + ctx.td(f"g{i - 1}", lo_us=1)
-            v = [ctx.real(f"v{i}_{c}") for c in range(width)]
-            out.push_data(np.array(v, dtype=object), t)
+            if spill:
+                # files cannot hold symbolic terms: distinct concrete values, not linear in the index
+                v = [float((i + 1) ** 2 * 100 + c) for c in range(width)]
+                out.push_data(np.array(v, dtype=float), t)
+            else:
+                v = [ctx.real(f"v{i}_{c}") for c in range(width)]
+                out.push_data(np.array(v, dtype=object), t)
             times.append(t)
             vals.append(v)
             continue
@@ -212,6 +232,12 @@ def families(tier):
             bounds=f"adapter {kind}; event pattern {pat}; symbolic gaps >= 1 us, symbolic values and requests",
             must_cover=["req:ok", "req:time-error"], query_timeout_ms=20000))
     for kind in ("next", "prev", "linear", "step"):
+        for pat in (["PPPRPR"] if q else ["PPPRPR", "PPRPRPR", "PPPRPRR", "PRPPRPR"]):
+            fams.append(dict(
+                name=f"{kind}:{pat}:spilled", ref="vf.props.c11:h_interp",
+                params={"kind": kind, "pattern": pat, "gaps": [3, 1, 5, 2][: pat.count("P") - 1], "spill": True},
+                bounds=f"adapter {kind} with memory limit 0 (every buffered entry in a file); pattern {pat}; concrete "
+                       f"distinct values, symbolic request times", must_cover=["req:ok"], workers=4))
         fams.append(dict(
             name=f"{kind}:inductive", ref="vf.props.c11:h_inductive",
             params={"kind": kind, "max_buffered": 3 if q else 4},
